@@ -395,12 +395,16 @@ pub fn run(run: &mut Run) {
         {
             run.acc.violation("c03:meta", format!("delay/cycle/repeat accessors ({}, {:?}, {:?}) differ from configured {:?}", tl.delay(), tl.cycle_duration(), tl.repeat(), cfg), case("accessors"));
         }
-        // three roundings (count to f32 — up to one ulp of the product once the count exceeds 2^24 —, product,
-        // sum) => at most 2 ulp from the real total
+        // "delay + cycle x (repeats+1)" to float rounding: within one ulp of the real total (what a careful
+        // evaluation in higher precision gives), or exactly what the formula gives in f32 arithmetic with every
+        // operation correctly rounded (count, product, sum — together up to 2 ulp once the count exceeds 2^24 —, or
+        // product and sum fused). A count that is rounded twice (`n as f32 + 1.0`) is neither.
         let dur_ok = if want_total.is_infinite() {
             dur == f32::INFINITY
         } else {
-            dur.is_finite() && (dur as f64 - want_total).abs() <= 2.0 * ulp32(want_total as f32) as f64 + 1e-30
+            let count = cfg.rep.cycles().unwrap() as f32;
+            let formula = [cfg.delay + cfg.cycle * count, cfg.cycle.mul_add(count, cfg.delay)];
+            dur.is_finite() && ((dur as f64 - want_total).abs() <= 1.0 * ulp32(want_total as f32) as f64 + 1e-30 || formula.iter().any(|f| f.to_bits() == dur.to_bits()))
         };
         if !dur_ok {
             run.acc.violation("c03:duration", format!("duration() = {dur} but delay + cycle x (repeats+1) = {want_total} for {:?}", cfg), case("duration"));
